@@ -604,9 +604,19 @@ class EndpointResponseHandlerGenerator:
             deserialization_code = self._get_cattrs_deserialization_code(strategy.return_type, data_expr)
             writer.write_line(f"return {deserialization_code}")
             self._register_imports_for_type(strategy.return_type, context)
+        elif strategy.return_type in ("str", "bytes") and self._is_non_json_body(strategy.response_ir):
+            # A text/* (or other non-JSON) body is not a JSON document: hand back what the server sent
+            writer.write_line("return response.text" if strategy.return_type == "str" else "return response.content")
         else:
             context.add_import("typing", "cast")
             writer.write_line(f"return cast({strategy.return_type}, {data_expr})")
+
+    @staticmethod
+    def _is_non_json_body(response_ir: IRResponse | None) -> bool:
+        """True when the response declares content and none of its media types is JSON."""
+        if response_ir is None or not response_ir.content:
+            return False
+        return not any("json" in media_type.lower() for media_type in response_ir.content)
 
     def _get_response_schema(self, response_ir: IRResponse) -> IRSchema | None:
         """Extract the schema from a response IR."""
